@@ -43,6 +43,8 @@ Oracle calibration
     min/max, a non-member, a length out of bounds, the wrong JSON kind); true/false and 5.0 offered for an integer are
     judged by the integer they denote; +-Infinity for a double and null for an optional struct member are not judged;
     'must accept' only for canonical payloads (the C04 reference conversion), nested structs may or may not be merged.
+  * D4 also judges the shape of an emitted value independently of frappy (kind, lengths, enum membership, struct members;
+    import_value of a container ignores its length) - never the numeric min/max.
   * D4 readings: a reading the described datainfo can not import (too long a string / blob / array, a non-member) must
     come out as error_read / error_update; this is probed with readings valid for the class-level datatype where the
     configuration narrowed it.  Numbers beyond the described min/max are importable by design and may be emitted.
@@ -125,7 +127,7 @@ def _integer_of(x):
     return None
 
 
-def outside_described(spec, x):
+def outside_described(spec, x, numeric_bounds=True):
     """reason (text) why the payload x is certainly NOT a value of the described datainfo, else None.
     Written from the SECoP meaning of a datainfo, independent of frappy: integers (int, scaled, enum) and lengths are
     exact; doubles are tolerant by the described resolution (frappy documents clamping within it)"""
@@ -143,7 +145,7 @@ def outside_described(spec, x):
             return 'integer beyond the float range'
         lo, hi, absres, relres = T.double_limits(spec)
         slack = max(abs(xf * relres), absres) * (1 + 1e-9) + abs(xf) * 1e-15
-        if not lo - slack <= xf <= hi + slack:
+        if numeric_bounds and not lo - slack <= xf <= hi + slack:
             return f'beyond the described min/max by more than the resolution'
         return None
     if k in ('int', 'scaled'):
@@ -157,7 +159,7 @@ def outside_described(spec, x):
         else:
             scale, flo, fhi = T.scaled_limits(spec)
             lo, hi = round(flo / scale), round(fhi / scale)
-        if not lo <= n <= hi:
+        if numeric_bounds and not lo <= n <= hi:
             return 'integer outside the described min/max'
         return None
     if k == 'bool':
@@ -195,7 +197,7 @@ def outside_described(spec, x):
         if not spec[2] <= len(x) <= spec[3]:
             return 'length outside the described minlen/maxlen'
         for e in x:
-            why = outside_described(spec[1], e)
+            why = outside_described(spec[1], e, numeric_bounds)
             if why:
                 return 'element: ' + why
         return None
@@ -205,7 +207,7 @@ def outside_described(spec, x):
         if len(x) != len(spec[1]):
             return 'wrong number of elements'
         for m, e in zip(spec[1], x):
-            why = outside_described(m, e)
+            why = outside_described(m, e, numeric_bounds)
             if why:
                 return 'element: ' + why
         return None
@@ -221,7 +223,7 @@ def outside_described(spec, x):
         for n, e in x.items():
             if e is None:
                 continue     # null for an optional member: frappy's documented goodie, not judged
-            why = outside_described(members[n], e)
+            why = outside_described(members[n], e, numeric_bounds)
             if why:
                 return f'member: ' + why
         return None
@@ -637,6 +639,15 @@ class Checker:
             self.viol(f'C06:emitted:{source}:{cdt.export_datatype().get("type")}:not-importable:{type(e).__name__}',
                       f'{m}:{wire}', f'{m}:{wire} emitted {v!r} ({source}); described datainfo '
                       f'{json.dumps(cdt.export_datatype())[:200]} refuses it: {e}')
+            return
+        spec = spec_from_datainfo(cdt.export_datatype())
+        why = outside_described(spec, v, numeric_bounds=False) if spec else None
+        if why:
+            # import_value of a container does not look at its length: judge the shape independently (numbers beyond the
+            # described min/max stay admitted, see calibration)
+            self.part.outcomes['emitted:outside-described-shape'] += 1
+            self.viol(f'C06:emitted:{source}:{spec[0]}:outside-the-described-datainfo:{norm(why)}', f'{m}:{wire}',
+                      f'{m}:{wire} emitted {v!r} ({source}); described datainfo {json.dumps(cdt.export_datatype())[:200]}: {why}')
             return
         if back != jn(v):
             self.part.outcomes['emitted:changes-on-reimport'] += 1
